@@ -61,7 +61,7 @@ var craftKinds = []string{"none", "none", "actor-honest", "actor-out-of-range", 
 	"version-same", "version+2", "wrong-id", "sum+1", "sum-1", "cols+1", "cols-1", "asset", "backend", "final", "negative",
 	"locked-id", "locked-amount", "locked-imap", "locked-imap-grow", "locked-add", "locked-remove", "locked-swap-amount"}
 
-var fundKinds = []string{"ok", "ok", "stale-base", "debit-wrong-party", "debit-split", "debit-honest-more", "extra-payment", "wrong-amount", "wrong-imap", "touch-other", "no-suballoc"}
+var fundKinds = []string{"ok", "ok", "follows-agreement", "stale-base", "debit-wrong-party", "debit-split", "debit-honest-more", "extra-payment", "wrong-amount", "wrong-imap", "touch-other", "no-suballoc"}
 var settleKinds = []string{"ok", "ok", "stale-base", "credit-wrong-party", "credit-split", "keep-suballoc", "remove-other", "extra-payment"}
 
 func drawCase(t *rapid.T) Case {
@@ -546,7 +546,25 @@ func runCase(c Case) *h.Outcome {
 		pb := [][2]*big.Int{{nil, nil}}
 		pb[0][w.mIdx], pb[0][w.hIdx] = bal(sb[0]), bal(sb[1])
 		init := sim.MakeAlloc([]uint64{asset0}, pb)
-		hs, err = adv.HandOpenSub(hon, mch, init, 10, short)
+		var agreement channel.Balances
+		if c.FundKind == "follows-agreement" && sb[0] > 0 {
+			// a hand-written proposal whose funding agreement (same sum) makes the
+			// honest party pay the adversary's share too; the funding update then
+			// follows the agreement instead of the balances of the sub-channel
+			agreement = channel.Balances{{nil, nil}}
+			agreement[0][w.mIdx], agreement[0][w.hIdx] = bal(0), bal(sb[0]+sb[1])
+		}
+		hs, err = adv.HandOpenSub(hon, mch, init, 10, short, func(p *client.SubChannelProposalMsg) {
+			if agreement != nil {
+				p.FundingAgreement = agreement.Clone()
+			}
+		})
+		if err != nil && agreement != nil {
+			// the honest party may refuse such a proposal outright: nothing to sign then
+			o.Class("sub:proposal-with-other-funding-agreement-refused")
+			agreement, err = nil, nil
+			hs, err = adv.HandOpenSub(hon, mch, init, 10, short)
+		}
 		if err != nil {
 			return fail("harness-handsub", "hand-made sub-channel opening failed: %v", err)
 		}
@@ -573,6 +591,11 @@ func runCase(c Case) *h.Outcome {
 		case "ok":
 			debit(mI, bal(sb[0]))
 			debit(hI, bal(sb[1]))
+		case "follows-agreement": // debits as the proposal's funding agreement says, not as the sub-channel's balances
+			if agreement == nil || s.Balances[0][hI].Cmp(total) < 0 {
+				ok = false
+			}
+			debit(hI, total)
 		case "stale-base": // funding computed from the parent state before the intermediate payment: rolls it back
 			if stale.Version == cur.Version {
 				ok = false
